@@ -473,6 +473,9 @@ Section Model.
     let u := match k_u k with Some u => u | None => 0%Z end in
     let mid := match k_mat k with Some m => m | None => mid end in
     let rho := match k_rho k with Some d => Some (nf P d) | None => rho end in
+    (* if int(material_id) == 0: density = None (LIKE n BUT MAT=0 is void) *)
+    do z <- of_opt EValue (int_tok mid);
+    let rho := if (z =? 0)%Z then None else rho in
     do fid <- to_fillid k lat_opt;
     let trcl := match k_trcl k with
                 | Some p => if is_empty_params p then None else Some p
